@@ -237,6 +237,44 @@ def filename_worker(arg):
                     "diff": [("escaped exception is not an InvalidDefinitionError", type(res).__name__, str(res)[:300])]}
     return r
 
+@core.safe
+def kinds_worker(arg):
+    """A state of Expr.tla's operator x operand-kind grid (shared with C04) as an input text: whatever the operands are,
+    the outcome is a model or an InvalidDefinitionError."""
+    from . import c04
+    block, seed = arg
+    st = tlaval.parse_state_block(block)
+    if st["ph"] != 9:
+        return None
+    rng = random.Random(seed * 1000003 + (hash(block) & 0xFFFFFF))
+    bads = []
+    for toks in (st["out"]["toks"], st["out"]["full"]):
+        expr = c04.render(toks, rng)
+        for text in ("@print %s\n@sealed\n" % expr, "uint8 X = %s\n@sealed\n" % expr, "uint8[%s] x\n@sealed\n" % expr,
+                     "@assert %s\n@sealed\n" % expr, "uint8 a\n@extent %s\n" % expr):
+            status, res = read_text(text)
+            bad = classify(status, res, "A.1.0.dsdl")
+            if bad:
+                b = {"kind": "operand-kinds", "case": tlaval.to_json(st["case"]), "text": text, "diff": [bad[0]]}
+                if bad[1]:
+                    b["cause"] = bad[1]
+                bads.append(b)
+    r = {"nt": st["out"]["v"]["t"] == "err", "key": "kinds" + core.jhash(tlaval.to_json(st["case"])), "n": 10}
+    if bads:
+        r["bad"] = bads[0]
+    return r
+
+def run_kinds(ctx):
+    res = tlc.run("Expr", "Expr_kinds.cfg", dump=True, tag="c13k", timeout=3000)
+    ctx.add_tlc(res, "Expr_kinds.cfg")
+    if res.violated:
+        ctx.spec_violation(res, "Expr_kinds.cfg")
+        tlc.cleanup(res)
+        return
+    blocks = tlaval.split_dump_blocks(res.dump_path)
+    tlc.cleanup(res)
+    c02.consume(ctx, core.pmap(kinds_worker, [(b, ctx.seed) for b in blocks], chunksize=50), "kinds")
+
 def run_mut(ctx, cfg, mod, collect):
     res = tlc.run("MC_Funnel", cfg, dump=True, tag="c13", timeout=3000)
     ctx.add_tlc(res, cfg)
@@ -253,7 +291,9 @@ def run(ctx):
     ctx.rule = ("TLC checks the propagation model over every (class, raise site) and enumerates every single token mutation "
                 "(delete / duplicate / swap / replace by each of 110 vocabulary entries incl. every operator, bracket, "
                 "directive, literal form and targeted corner expression) of three seed definitions, and (sampled) double "
-                "mutations; each text is read: model or InvalidDefinitionError with a path. 45 corner texts, seeded character "
+                "mutations; each text is read: model or InvalidDefinitionError with a path. Every state of Expr.tla's operator x operand-kind grid "
+                "(17 binary, 3 unary, 4 attribute operators x 20 operand kinds incl. data types and sets of sets / types) is "
+                "placed in five expression contexts (@print, constant, capacity, @assert, @extent). 45 corner texts, seeded character "
                 "noise incl. control characters, 31 file-name shapes and 6 duplicate / case-variant file sets are added. "
                 "Non-trivial = input that is rejected; distinct by hash of the mutation list / text")
     ctx.assumptions = ["nesting is bounded at 12 levels, exponents are small (towers such as 2**2**2**2**2**2 do not terminate "
@@ -282,6 +322,7 @@ def run(ctx):
     ctx.traces += len(recs)
     ctx.extra["funnel_traces_validated"] = len(recs)
     ctx.exhaustive = False
+    run_kinds(ctx)
     c02.consume(ctx, core.pmap(corner_worker, CORNERS, chunksize=2), "corner")
     n = 600 if quick else 6000
     for r in core.pmap(noise_worker, [(ctx.seed * 1000 + k, n // 16) for k in range(16)], chunksize=1):
